@@ -23,6 +23,7 @@ PROTO = "sd.ServiceDiscoveryProtocol"
 def check(run, prog, tier):
     # "not yet found" must be answered from the live store, never from a copy that a change of the store does not reset
     cache_coherence(run, prog, "N5", ['sd.ServiceDiscover', 'sd.TimedStore'])
+    _task_typestate(run, prog)
     run.explanation = (
         "send_find_services is a coroutine with await points; the guarantee 'only services not found *now*' is a "
         "freshness fact: on every enumerated path the list handed to send_sd was computed after the last await "
@@ -217,3 +218,56 @@ def check(run, prog, tier):
             okst = len(t_) == 1 and bool(sts)
     guard = any(not [e for e in p.events if e.kind == "call" and e.sched == "task"] and p.returns() for p in tp)
     run.ob("N4", f"{start.qual}:one-task", okst and guard and creates == 1, loc(start), "start() creates exactly one find task and keeps it; a running task is not duplicated")
+
+
+def _task_typestate(run, prog):
+    """N6 'after start' / 'no further FindService': start() launches the find task exactly when none is running, stop()
+    cancels a running one and forgets it - decided on the three states of self.task {None, finished, running}"""
+    from ..util import implied_atoms
+    me = ("self", DISC)
+    task = ("attr", me, "task")
+    start = prog.lookup_method(DISC, "start")
+    stop = prog.lookup_method(DISC, "stop")
+    sf = prog.lookup_method(DISC, "send_find_services")
+    if not all((start, stop, sf)):
+        raise AnalysisError(f"{DISC}: start / stop / send_find_services vanished")
+    run.analysed(start, stop)
+    eng = engine(prog, NoInline())
+    SENT = object()
+
+    def leaf_for(state):
+        def leaf(tm):
+            if tm == task:
+                return None if state == "none" else SENT
+            if tm[0] == "call" and tm[1] == ("attr", task, "done") and not tm[2]:
+                return state == "finished"
+            raise AnalysisError(f"{DISC}: task typestate depends on {show(tm)}")
+        return leaf
+
+    for state in ("none", "finished", "running"):
+        lf = leaf_for(state)
+        hits = [p for p in eng.paths(start, recv=DISC) if all(bool(eval_term(c, lf)) == v for c, v, _, _ in p.conds)]
+        run.paths += len(hits)
+        if len(hits) != 1:
+            raise AnalysisError(f"{start.qual}: {len(hits)} paths for task state '{state}'")
+        p = hits[0]
+        launched = [e for e in p.events if e.kind == "call" and e.sched == "task" and e.cb is not None and e.cb[0] == "bound" and e.cb[-1] == sf.qual]
+        stored = [e for e in p.events if e.kind == "store" and e.target == task and launched and e.value == launched[0].result]
+        want = state != "running"
+        ok = p.returns() and (len(launched) == 1 and len(stored) == 1 if want else not launched)
+        run.ob("N6", f"{start.qual}:task-{state}", ok, loc(start),
+               (f"start() with task {state}: launches send_find_services {len(launched)}x and remembers it {len(stored)}x (expected once / once)" if want else
+                f"start() while the find task runs: {len(launched)} further task(s) launched (expected none - a second task doubles every round)"))
+    for state in ("none", "running"):
+        lf = leaf_for(state)
+        hits = [p for p in eng.paths(stop, recv=DISC) if all(bool(eval_term(c, lf)) == v for c, v, _, _ in p.conds)]
+        run.paths += len(hits)
+        if len(hits) != 1:
+            raise AnalysisError(f"{stop.qual}: {len(hits)} paths for task state '{state}'")
+        p = hits[0]
+        cancels = [e for e in p.events if e.kind == "call" and e.attrname == "cancel" and e.recv == task]
+        cleared = [e for e in p.events if e.kind == "store" and e.target == task and e.value == const(None)]
+        ok = p.returns() and ((len(cancels) == 1 and len(cleared) == 1 and cancels[0].seq < cleared[0].seq) if state == "running" else not cancels)
+        run.ob("N6", f"{stop.qual}:task-{state}", ok, loc(stop),
+               f"stop() with task {state}: {len(cancels)} cancel(s), task forgotten {len(cleared)}x" +
+               (" (expected: cancel once, then forget - a forgotten but running task keeps sending FindService, a remembered one blocks the next start())" if state == "running" else ""))
